@@ -51,7 +51,7 @@ func c02OnlyRequestLevel(ds []c02Defect) bool {
 func (s *c02State) planAndRender(leg c02Leg, nonce string, defects []c02Defect, scope string, clientID string) (*c02Request, c02Rendered, []string) {
 	c := s.c
 	layout := c.Layout
-	useWallet := layout == "wallet" && c.Window == 0 && c02OnlyRequestLevel(defects)
+	useWallet := layout == "wallet" && c.Window == 0 && c.AudForm == 0 && c02OnlyRequestLevel(defects)
 	r := c02Honest(c, leg.PD, leg.Signer, s.fx.issuer, nonce, layout, &s.seq)
 	r.Scope = c02Ptr(scope)
 	r.ClientID = c02Ptr(clientID)
@@ -59,7 +59,14 @@ func (s *c02State) planAndRender(leg c02Leg, nonce string, defects []c02Defect, 
 	for _, name := range c02DefectOrder {
 		for _, d := range defects {
 			if d.Name == name && c02ApplyPresentationDefect(c, r, d, s.fx.issuer) {
-				realised = append(realised, d.Name)
+				if c02NoExpectation[d.Name] {
+					realised = append(realised, "~"+d.Name)
+				} else {
+					realised = append(realised, d.Name)
+				}
+				if d.Name == "aud_near_miss" {
+					s.x.Classf("aud_near_miss:variant=%d,plain-string=%v,%s,%s", d.Arg%13, (d.Arg/12)%2 == 1, c.VPFmt, c.Flow)
+				}
 				if d.Name == "validity_long" {
 					w := c02LongWindows[d.Arg%len(c02LongWindows)]
 					s.x.Classf("validity_long:created%+ds,expires%+ds,iat-only=%v", int(w.created.Seconds()), int(w.expires.Seconds()), w.iatOnly)
@@ -99,9 +106,30 @@ func (s *c02State) s2sHonest(tag string) (c02TokenResult, []string) {
 	return res, defects
 }
 
+// c02NoExpectation: variations whose acceptance the property neither demands nor forbids. They are realised as "~name":
+// a request whose only deviations are of this kind is sent and counted, never judged.
+var c02NoExpectation = map[string]bool{"aud_equivalent": true, "aud_array_contains": true}
+
+// c02Strict returns the deviations that carry the "must be refused" expectation, and whether there are others.
+func c02Strict(defects []string) (strict []string, soft bool) {
+	for _, d := range defects {
+		if strings.HasPrefix(d, "~") {
+			soft = true
+		} else {
+			strict = append(strict, d)
+		}
+	}
+	return
+}
+
 // judge applies oracle (1) to one token request.
-func (s *c02State) judge(tag string, res c02TokenResult, defects []string) {
+func (s *c02State) judge(tag string, res c02TokenResult, all []string) {
 	x := s.x
+	defects, soft := c02Strict(all)
+	if len(defects) == 0 && soft {
+		x.Classf("outcome:%s:no-expectation:issued=%v", tag, res.Err == nil)
+		return
+	}
 	if len(defects) == 0 {
 		if res.Err != nil {
 			// generator soundness: a request without defects must be accepted. The property only states "issued only
@@ -123,6 +151,16 @@ func (s *c02State) judge(tag string, res c02TokenResult, defects []string) {
 	} else {
 		x.Class("reject-code:non-oauth2") // counted only: the property asks for refusal, not for its form
 	}
+}
+
+func c02Soft(defects []string) []string {
+	var out []string
+	for _, d := range defects {
+		if strings.HasPrefix(d, "~") {
+			out = append(out, d)
+		}
+	}
+	return out
 }
 
 func asOAuth(err error, target *oauth.OAuth2Error) bool {
@@ -325,8 +363,13 @@ func (s *c02State) mainCode() func() c02TokenResult {
 		defects = append(defects, realised...)
 		reqs, rds = append(reqs, r), append(rds, rd)
 		redirect, err := s.directPost(state, rd)
-		legDefective := i == defLeg && len(defects) > 0
+		strict, soft := c02Strict(defects)
+		legDefective := i == defLeg && len(strict) > 0
 		if err != nil {
+			if i == defLeg && soft && len(strict) == 0 {
+				x.Class("outcome:leg:no-expectation:rejected")
+				break
+			}
 			if !legDefective {
 				x.Fatalf("defect-free OpenID4VP leg %d (%s) rejected: %s\n%s\ncase: %+v", i, leg.Owner, c02ErrString(err), s.diagnose(rd, leg), c)
 			}
@@ -345,13 +388,19 @@ func (s *c02State) mainCode() func() c02TokenResult {
 		}
 		if legDefective {
 			x.NonTrivial()
-			x.Violate("accepted-despite:"+c02DefectNames(defects), "OpenID4VP leg %d (%s) accepted although it has defect(s) %v (redirect %s)", i, leg.Owner, defects, redirect)
+			x.Violate("accepted-despite:"+c02DefectNames(strict), "OpenID4VP leg %d (%s) accepted although it has defect(s) %v (redirect %s)", i, leg.Owner, strict, redirect)
 		}
 	}
 	for _, d := range defects {
 		x.Class("defect:" + d)
 	}
 	if code == "" {
+		if _, soft := c02Strict(defects); soft && len(defects) > 0 && len(defects) == len(c02Soft(defects)) {
+			x.Classf("ndefects:%d", 0)
+			return func() c02TokenResult {
+				return s.callToken(HandleTokenRequestFormdataRequestBody{GrantType: oauth.AuthorizationCodeGrantType, Code: c02Ptr("made-up-code"), ClientId: c02Ptr(clientID), CodeVerifier: c02Ptr(cs.Verifier)}, c.DPoP)
+			}
+		}
 		if len(defects) == 0 {
 			x.Fatalf("all legs accepted but no authorization code issued")
 		}
